@@ -14,7 +14,8 @@ pub const STRUCTURAL: [&str; 75] = [
     "(?-", "(?#", "(?", "*", "+", "?", "*?", "*+", "{", "}", "{2}", "{1,2}", "{2,}", "{,2}", "{18446744073709551615}", "{99999999999999999999}", ",", "[", "]", "[^", "[a-", "-", "&&", "[:alpha:]", "\\", "\\1", "\\2",
     "\\k<n>", "\\k<-1>", "\\k<99999999999>", "\\g<1>", "\\b", "\\K", "\\G", "\\A", "\\z", "\\Z", "\\d", "\\p{", "\\pL", "\\x", "\\x{110000}", "\\x{", "\\u00e9", "\\h", "\\e", "#",
 ];
-pub const EXTRA: [&str; 25] = [
+pub const EXTRA: [&str; 29] = [
+    "\\x{1", "00000000", "FFFFFFFF", "\\u{",
     "\\k'n'", "\\k<", "\\g'-1'", "(?P>n)", "(?<", "(?'n')", "(?(?=a))", "\\U0010FFFF", "\\UFFFFFFFF", "\\N", "\\Q", "\\<", "\\>", "\\B{", "(?-u)", "(?U)", "(?s:", "(?imsx-imsx:", "]]", "[[", "\\p{Greek}", "{ 1 , 2 }", "(?#\\", "\\ ",
     "\r",
 ];
@@ -222,6 +223,34 @@ fn inputs(ctx: &Ctx) -> (Vec<String>, String) {
     (v, desc)
 }
 
+/// Families of patterns that grow linearly in a depth parameter; compile cost (peak live bytes,
+/// allocation count) must grow roughly linearly too. (body, wrapper prefix, wrapper suffix)
+pub fn scaling_families() -> Vec<(String, Vec<(usize, String)>)> {
+    // hard bodies only: the nesting is then compiled by fancy-regex itself. (Counted repeats of an
+    // easy body are expanded by regex-automata - exponential in the nesting depth but bounded by its
+    // own size limit, which the property allows.)
+    let bodies = ["a\\b", "\\1y", "a(?=b)", "(?<!c)d\\b"];
+    let wraps: [(&str, &str); 12] = [("(?:", "){2}"), ("(?:", "){3}"), ("(?:", "){2,3}"), ("(?:", ")*"), ("(?:", ")+?"), ("(?:", ")?"), ("(?:", "|b)"), ("(", ")"), ("(?>", ")"), ("(?=", ")"), ("(?:", "){1}"), ("(?i:", ")")];
+    let mut out = vec![];
+    for body in bodies {
+        for (open, close) in wraps {
+            let mut sizes = vec![];
+            for depth in [4usize, 8, 16, 32] {
+                let pat = format!("(x){}{}{}", open.repeat(depth), body, close.repeat(depth));
+                sizes.push((depth, pat));
+            }
+            out.push((format!("{}{}{} nested", open, body, close), sizes));
+        }
+        // width instead of depth
+        let mut sizes = vec![];
+        for n in [8usize, 16, 32, 64] {
+            sizes.push((n, format!("(x){}", format!("(?:{}){{2}}", body).repeat(n))));
+        }
+        out.push((format!("(?:{}){{2}} repeated", body), sizes));
+    }
+    out
+}
+
 struct Worker {
     child: std::process::Child,
     shard: usize,
@@ -399,6 +428,60 @@ pub fn run(ctx: &Ctx) -> Outcome {
         v.note = format!("nominated because: {}; pattern length {} bytes; shown truncated: {:?}", why, inp.len(), shown);
         acc.violate(v);
     }
+    // scaling monitor: cost of nested / repeated families must not explode with their size
+    let fams = scaling_families();
+    let flat: Vec<&String> = fams.iter().flat_map(|(_, v)| v.iter().map(|(_, p)| p)).collect();
+    let mpath = format!("{}/scaling.in", dir);
+    std::fs::write(&mpath, flat.iter().map(|p| serde_json::to_string(p).unwrap()).collect::<Vec<_>>().join("\n") + "\n").unwrap();
+    let mout = format!("{}/scaling.out", dir);
+    let st = Command::new(&bin).args([&mpath, &format!("{}/scaling.progress", dir), &mout, "0", "measure"]).stdout(Stdio::null()).stderr(Stdio::null()).status();
+    let mut measures: BTreeMap<String, (u64, u64, String)> = BTreeMap::new();
+    for line in std::fs::read_to_string(&mout).unwrap_or_default().lines() {
+        if let Ok(v) = serde_json::from_str::<Value>(line) {
+            if let Some(m) = v.get("measure") {
+                measures.insert(m["input"].as_str().unwrap_or("").to_string(), (m["peak"].as_u64().unwrap_or(0), m["allocs"].as_u64().unwrap_or(0), m["outcome"].as_str().unwrap_or("").to_string()));
+            }
+        }
+    }
+    let mut worst_ratio = 0f64;
+    let mut scaling_checked = 0u64;
+    if st.map(|s| s.success()).unwrap_or(false) {
+        for (name, sizes) in &fams {
+            for w in sizes.windows(2) {
+                let (Some(a), Some(b)) = (measures.get(&w[0].1), measures.get(&w[1].1)) else { continue };
+                // only where both compile the same way and the cost is above the noise floor
+                if a.2 != b.2 || b.0 < 256 * 1024 {
+                    continue;
+                }
+                scaling_checked += 1;
+                acc.evals += 1;
+                let ratio = (b.0 as f64 / a.0.max(1) as f64).max(b.1 as f64 / a.1.max(1) as f64);
+                worst_ratio = worst_ratio.max(ratio);
+                // doubling the size may cost up to 4x (linear = 2x; slack for allocator rounding)
+                if ratio > 4.0 {
+                    let mut v = Violation::new("C06", "scaling-monitor", &w[1].1, "", 0, "Regex::new", format!("cost at size {} at most 4x the cost at size {} ({} bytes peak, {} allocations)", w[1].0, w[0].0, a.0, a.1), format!("{} bytes peak, {} allocations ({:.1}x)", b.0, b.1, ratio));
+                    v.note = format!("family: {}", name);
+                    acc.violate(v);
+                }
+            }
+        }
+    } else {
+        acc.count("scaling-shard-died (its inputs are nominated like any other)");
+        // find out which one: run them through the normal nomination path
+        for p in &flat {
+            let (status, stderr, _) = run_alone(&bin, &dir, p, Duration::from_secs(60), "scale");
+            if !status.contains("exit status: 0") {
+                let what = if stderr.contains("ALLOC-CAP") { "allocation above the cap".to_string() } else { format!("worker died: {}", status) };
+                acc.violate(Violation::new("C06", "process-monitor", p, "", 0, "Regex::new", "returns Ok or Err within bounded time, memory and stack".into(), what));
+                break;
+            }
+        }
+    }
+    acc.add("scaling-pairs-checked", scaling_checked);
+    acc.add("scaling-inputs-measured", measures.len() as u64);
+    acc.max("scaling-max-peak-bytes", measures.values().map(|m| m.0).max().unwrap_or(0));
+    acc.max("scaling-max-allocations", measures.values().map(|m| m.1).max().unwrap_or(0));
+    acc.max("worst-cost-ratio-for-doubled-size-x100", (worst_ratio * 100.0) as u64);
     let _ = std::fs::remove_dir_all(&dir);
     for (k, n) in &total.errs {
         acc.add(&format!("err:{}", k), *n);
@@ -423,7 +506,7 @@ pub fn run(ctx: &Ctx) -> Outcome {
     }
     let mut out = Outcome::new(acc);
     out.distinct_nontrivial = total.parsed + sites.len() as u64;
-    out.rule = format!("{}. Every input is compiled in a worker process (16 shards) on a 2 MiB thread stack under: catch_unwind with overflow checks and debug assertions compiled into fancy-regex; a counting global allocator with a cap of 64 MiB + 2 MiB per pattern byte on live bytes (an allocation above it is refused, the process aborts and the parent sees which input was in progress); error position <= pattern length and Display of every error; a 20 s no-progress watchdog that only nominates - every nominated input is re-run alone with 60 s and only a reproduced death / hang is a violation. Non-trivial: inputs that passed the parser plus distinct (error kind, position) pairs.", desc);
+    out.rule = format!("{}. Every input is compiled in a worker process (16 shards) on a 2 MiB thread stack under: catch_unwind with overflow checks and debug assertions compiled into fancy-regex; a counting global allocator with a cap of 64 MiB + 2 MiB per pattern byte on live bytes (an allocation above it is refused, the process aborts and the parent sees which input was in progress); error position <= pattern length and Display of every error; a 20 s no-progress watchdog that only nominates - every nominated input is re-run alone with 60 s and only a reproduced death / hang is a violation; a scaling monitor over 52 pattern families (4 hard bodies x 12 nesting wrappers at depth 4/8/16/32, and repeated `(?:body){{2}}` at width 8..64): where the cost exceeds 256 KiB, doubling the size may cost at most 4x in peak bytes and allocations. Non-trivial: inputs that passed the parser plus distinct (error kind, position) pairs.", desc);
     out.assumptions = vec!["time is observed through the allocation count (logical cost) and a confirmed wall-clock watchdog, not a cycle-exact bound".into()];
     out.extra = json!({"resource_maxima": {"peak_live_bytes_during_one_compile": best_peak.0, "peak_input": best_peak.1, "largest_single_request": best_req.0, "largest_request_input": best_req.1, "most_allocations_in_one_compile": best_allocs.0, "most_allocations_input": best_allocs.1, "cap_base": 64 << 20, "cap_per_byte": 2 << 20}, "distinct_error_sites": sites.len(), "worker_processes": nshards});
     let (n, ok) = (total.n, total.ok_vm + total.ok_wrapped);
